@@ -22,6 +22,8 @@ func main() {
 		cmdCt(os.Args[2:])
 	case "ring":
 		cmdRing(os.Args[2:])
+	case "eff":
+		cmdEff(os.Args[2:])
 	default:
 		fmt.Fprintln(os.Stderr, "unknown command", os.Args[1])
 		os.Exit(2)
@@ -185,4 +187,34 @@ func cmdRing(args []string) {
 			}
 		}
 	}
+}
+
+func cmdEff(args []string) {
+	fs := flag.NewFlagSet("eff", flag.ExitOnError)
+	repo := fs.String("repo", "/repo", "repository root")
+	spec := fs.String("spec", "/verif/spec", "spec library directory")
+	pkgs := fs.String("pkgs", "utils,sm3,sm4,sm2,sm2/internal,sm2/internal/fiat", "packages")
+	all := fs.Bool("all", false, "print discharged obligations too")
+	fs.Parse(args)
+	eng, err := NewEngine(*repo, "", "verif")
+	if err != nil {
+		fmt.Fprintln(os.Stderr, "load:", err)
+		os.Exit(2)
+	}
+	if err := eng.LoadContracts(ContractFilesArch(*repo, "", *spec)); err != nil {
+		fmt.Fprintln(os.Stderr, "contracts:", err)
+		os.Exit(2)
+	}
+	ea := NewEffAnalysis(eng)
+	n, bad := 0, 0
+	for _, o := range ea.Check(strings.Split(*pkgs, ",")) {
+		n++
+		if !o.OK {
+			bad++
+			fmt.Printf("FAIL %s (%s): %s\n", o.Name, o.Pos, o.What)
+		} else if *all {
+			fmt.Println("ok  ", o.Name)
+		}
+	}
+	fmt.Printf("%d obligations, %d failed\n", n, bad)
 }
